@@ -80,7 +80,7 @@ func (c *extClient) roundTrip(m mqtt.Message, ack uint8) (got []mqtt.Message) {
 // that asks to be subscribed, in a SUBSCRIBE and in a PUBLISH.  Observed: how many subscriptions the
 // broker's index holds for that client afterwards, whether a second client's publish on a/ reached it,
 // whether its own publish reached a subscriber of a/.
-func extUse(svc *broker.Service, extKey, plainKey string, how int) (held int, received, delivered bool) {
+func extUse(svc *broker.Service, extKey, plainKey, wideKey string, how int) (held int, received, delivered bool) {
 	before, _ := svc.VerifTrie().VerifDump()
 	_ = before
 	_, pairs0 := svc.VerifTrie().VerifDump()
@@ -96,6 +96,12 @@ func extUse(svc *broker.Service, extKey, plainKey string, how int) (held int, re
 		x.roundTrip(&mqtt.Publish{Header: mqtt.Header{QOS: 1}, MessageID: 2, Topic: []byte("emitter/link/"), Payload: req}, mqtt.TypeOfPuback)
 	case 1: // plain SUBSCRIBE
 		x.roundTrip(&mqtt.Subscribe{Header: mqtt.Header{QOS: 1}, MessageID: 2, Subscriptions: []mqtt.TopicQOSTuple{{Topic: []byte(extKey + "/a/")}}}, mqtt.TypeOfSuback)
+	case 3, 4: // SUBSCRIBE with a wildcard under / over the key's channel
+		topic := extKey + "/a/+/"
+		if how == 4 {
+			topic = extKey + "/a/#/"
+		}
+		x.roundTrip(&mqtt.Subscribe{Header: mqtt.Header{QOS: 1}, MessageID: 2, Subscriptions: []mqtt.TopicQOSTuple{{Topic: []byte(topic)}}}, mqtt.TypeOfSuback)
 	case 2: // link without subscription, then publish through the link
 		req, _ := json.Marshal(map[string]interface{}{"name": "l1", "key": extKey, "channel": "a/", "subscribe": false})
 		x.roundTrip(&mqtt.Publish{Header: mqtt.Header{QOS: 1}, MessageID: 2, Topic: []byte("emitter/link/"), Payload: req}, mqtt.TypeOfPuback)
@@ -108,6 +114,7 @@ func extUse(svc *broker.Service, extKey, plainKey string, how int) (held int, re
 		_ = m
 	}
 	other.roundTrip(&mqtt.Publish{Header: mqtt.Header{QOS: 1}, MessageID: 3, Topic: []byte(plainKey + "/a/"), Payload: []byte("from-other")}, mqtt.TypeOfPuback)
+	other.roundTrip(&mqtt.Publish{Header: mqtt.Header{QOS: 1}, MessageID: 6, Topic: []byte(wideKey + "/a/x/"), Payload: []byte("from-other")}, mqtt.TypeOfPuback)
 	for _, m := range x.roundTrip(&mqtt.Pingreq{}, mqtt.TypeOfPingresp) {
 		if p, ok := m.(*mqtt.Publish); ok && string(p.Payload) == "from-other" {
 			received = true
@@ -344,7 +351,7 @@ func main() {
 				map[string]interface{}{"op": "CreateKey (HTTP form path)", "parent": pname, "channel": ch, "access": access, "ttl": ttl}, "createkey/"+pname, true)
 		}
 		// an extendable key is for extension only: used as a channel key it must give nothing
-		for how := 0; how < 3; how++ {
+		for how := 0; how < 5; how++ {
 			mk := func(perms uint8) string {
 				k := security.Key(make([]byte, 24))
 				k.SetSalt(uint16(r.Intn(65536)))
@@ -356,9 +363,20 @@ func main() {
 				e, _ := cipher.EncryptKey(k)
 				return e
 			}
-			held, received, delivered := extUse(svc, mk(security.AllowExtend|security.AllowRead|security.AllowWrite), mk(security.AllowRead|security.AllowWrite), how)
+			wide := func() string {
+				k := security.Key(make([]byte, 24))
+				k.SetSalt(uint16(r.Intn(65536)))
+				k.SetMaster(1)
+				k.SetContract(lic.Contract())
+				k.SetSignature(lic.Signature())
+				k.SetPermissions(security.AllowRead | security.AllowWrite)
+				k.SetTarget("a/#/")
+				e, _ := cipher.EncryptKey(k)
+				return e
+			}()
+			held, received, delivered := extUse(svc, mk(security.AllowExtend|security.AllowRead|security.AllowWrite), mk(security.AllowRead|security.AllowWrite), wide, how)
 			sh.Add(vlib.App("CExtUse", vlib.N(uint64(how)), vlib.Z(int64(held)), vlib.Bool(received), vlib.Bool(delivered)),
-				map[string]interface{}{"op": "extendable key used as a channel key", "how": []string{"link+subscribe", "subscribe", "link, publish"}[how], "subscriptions_gained": held, "received_a_message": received, "its_publish_was_delivered": delivered}, "extendable-as-channel-key", true)
+				map[string]interface{}{"op": "extendable key used as a channel key", "how": []string{"link+subscribe", "subscribe", "link, publish", "subscribe a/+/", "subscribe a/#/"}[how], "subscriptions_gained": held, "received_a_message": received, "its_publish_was_delivered": delivered}, "extendable-as-channel-key", true)
 		}
 		svc.Close()
 	}
